@@ -243,6 +243,39 @@ pub fn run(ctx: &mut Ctx) -> (&'static str, String, bool) {
             }
         }
     }
+    // ---- a version packet from a peer whose IS_VER has grown (the situation the gate exists for): 24 / 32 byte frames ---
+    for v in [0u8, 8, 9, 10, 255] {
+        for extra in [4usize, 12] {
+            for compressed in MODES {
+                let mut ver = ver_frame(compressed, 1, v);
+                ver.extend(std::iter::repeat(0u8).take(extra));
+                ver[0] = if compressed { (ver.len() / 4) as u8 } else { ver.len() as u8 };
+                let ping = vec![if compressed { 1 } else { 4 }, 3, 5, 3];
+                let stream = [&ver[..], &ping[..]].concat();
+                for verify in [true, false] {
+                    for which in IMPLS {
+                        p.evaluations += 1;
+                        p.distinct(&("grown-ver", v, extra, compressed, verify, which.name()));
+                        let case = ReadCase { compressed, stream: stream.clone(), read_plan: vec![], default_read: 0, write_plan: vec![], verify_version: verify, flush: 0, label: format!("grown-ver{v}-plus{extra}-verify{verify}") };
+                        let o = run_read_case(which, &case);
+                        let first_ok = match o.results.first() {
+                            Some(ReadResult::IncompatibleVersion(x)) => verify && v != 9 && *x == v,
+                            Some(ReadResult::Packet(d)) => (!verify || v == 9) && d.starts_with("Ver(") && d.contains(&format!("insimver: {v}")),
+                            _ => false,
+                        };
+                        let second_ok = matches!(o.results.get(1), Some(ReadResult::Packet(d)) if d.starts_with("Tiny("));
+                        if !first_ok || !second_ok {
+                            p.violation(
+                                format!("C09/{}/grown-version-packet", which.name()),
+                                format!("{} {} verify={verify}: a {}-byte IS_VER reporting InSim version {v} followed by a ping gives {:?}", which.name(), mode_name(compressed), ver.len(), o.results.iter().map(short).collect::<Vec<_>>()),
+                                json!({"impl": which.name(), "mode": mode_name(compressed), "verify": verify, "version": v, "stream": hex(&stream)}),
+                            );
+                        }
+                    }
+                }
+            }
+        }
+    }
     // ---- the public comparison itself: Packet::maybe_verify_version on every version and every other kind -------
     {
         use crate::corpus::{real_decode, Dec};
